@@ -187,8 +187,19 @@ fn absorb(ctx: &Ctx, results: &[Value]) {
 }
 
 fn rustls_half(tier: &str, extra: &[&str]) -> Result<Vec<Value>, String> {
-    let exe = std::env::var("VERIF_CHK_RUSTLS").map_err(|_| "VERIF_CHK_RUSTLS not set (run through ./check)".to_string())?;
-    let out = std::process::Command::new(exe).arg("C12").arg(tier).args(extra).output().map_err(|e| format!("spawn chk-rustls: {e}"))?;
+    child_half("VERIF_CHK_RUSTLS", &["C12", tier], extra, false)
+}
+
+/// Run one half of the matrix in a child process (`damaged` = under a system trust store that cannot
+/// be loaded: SSL_CERT_FILE / SSL_CERT_DIR name things that do not exist; three certificates only).
+fn child_half(exe_var: &str, head: &[&str], extra: &[&str], damaged: bool) -> Result<Vec<Value>, String> {
+    let exe = if exe_var == "self" { std::env::current_exe().map_err(|e| format!("{e}"))?.display().to_string() } else { std::env::var(exe_var).map_err(|_| format!("{exe_var} not set (run through ./check)"))? };
+    let mut cmd = std::process::Command::new(exe);
+    cmd.args(head).args(extra);
+    if damaged {
+        cmd.env("SSL_CERT_FILE", "/nonexistent/verif/ca-bundle.pem").env("SSL_CERT_DIR", "/nonexistent/verif/certs").env("VERIF_TLS_REDUCED", "1");
+    }
+    let out = cmd.output().map_err(|e| format!("spawn chk-rustls: {e}"))?;
     let text = String::from_utf8_lossy(&out.stdout);
     let line = text.lines().find(|l| l.starts_with("RESULTS ")).ok_or_else(|| format!("chk-rustls gave no results (status {:?}): {}", out.status, String::from_utf8_lossy(&out.stderr).chars().take(400).collect::<String>()))?;
     let v: Value = serde_json::from_str(&line[8..]).map_err(|e| format!("{e}"))?;
@@ -196,7 +207,7 @@ fn rustls_half(tier: &str, extra: &[&str]) -> Result<Vec<Value>, String> {
 }
 
 pub fn run(ctx: &Ctx) {
-    ctx.set_rule("complete enumeration of the finite matrix {blocking, async} x {native-tls, rustls} x builder history {flag unset, false, true, true-then-false, and ca_cert() placed before / between / after those calls: root-then-true-then-false, true-then-root-then-false, root-then-true; every history that ends with the flag false must verify with the supplied root} x extra root {none, issuing CA as PEM, as DER, unrelated CA} x server certificate {valid for localhost, wrong host name, expired, self-signed leaf, signed by another CA} = 240 cells (320 with the call sequence), plus a reduced block with the same target spelled https://, plus 80 cells with IP-literal targets (127.0.0.1 and [::1]: the fixtures name only DNS:localhost, so the supplied-root cells must be rejected for every certificate), plus 24 cells with a second, tiny CA (Ed25519, DER shorter than 256 octets) supplied as PEM and as DER, each one real TLS connection from the library's client to a loopback TLS server (openssl) on ipps://localhost:<port>/ using committed certificate fixtures (thorough: also an IP-literal target, and the whole matrix 3 times in different cell orders; the quick run puts permissive cells before strict ones inside each block so that state leaking between clients would show). Oracle = policy model: must-reject => Err and 0 application bytes seen by the server after the handshake; must-accept => the scripted response. Non-trivial = every cell except {valid, issuing CA as PEM, flag unset}; distinct by cell id.");
+    ctx.set_rule("complete enumeration of the finite matrix {blocking, async} x {native-tls, rustls} x builder history {flag unset, false, true, true-then-false, and ca_cert() placed before / between / after those calls: root-then-true-then-false, true-then-root-then-false, root-then-true; every history that ends with the flag false must verify with the supplied root} x extra root {none, issuing CA as PEM, as DER, unrelated CA; for the strict flag values also two ca_cert() calls: issuing CA (PEM or DER) then an unrelated CA, and the reverse - every root given must be trusted} x server certificate {valid for localhost, wrong host name, expired, self-signed leaf, signed by another CA} = 240 cells (320 with the call sequence), plus a reduced block with the same target spelled https://, plus 80 cells with IP-literal targets (127.0.0.1 and [::1]: the fixtures name only DNS:localhost, so the supplied-root cells must be rejected for every certificate), plus 24 cells with a second, tiny CA (Ed25519, DER shorter than 256 octets) supplied as PEM and as DER, each one real TLS connection from the library's client to a loopback TLS server (openssl) on ipps://localhost:<port>/ using committed certificate fixtures (thorough: also an IP-literal target, and the whole matrix 3 times in different cell orders; the quick run puts permissive cells before strict ones inside each block so that state leaking between clients would show). The reduced matrix {valid, unknown CA, tiny CA} is run once more for both backends in child processes whose SSL_CERT_FILE / SSL_CERT_DIR name a system trust store that cannot be loaded. Oracle = policy model: must-reject => Err and 0 application bytes seen by the server after the handshake; must-accept => the scripted response. Non-trivial = every cell except {valid, issuing CA as PEM, flag unset}; distinct by cell id.");
     ctx.assume("the system trust store of the image is whatever it is; the fixtures never chain to it");
     ctx.assume("cells with flag=true and a bad certificate are recorded but not asserted");
     ctx.set_exhaustive(true);
@@ -220,10 +231,54 @@ pub fn run(ctx: &Ctx) {
         }
         let _ = round;
     }
+    // once more, both backends, in child processes whose environment names a system trust store that
+    // cannot be loaded: roots supplied through the builder must work all the same, and nothing may
+    // become acceptable
+    for (what, r) in [("native-tls", child_half("self", &["--child", "tls-native"], &["1"], true)), ("rustls", child_half("VERIF_CHK_RUSTLS", &["C12", ctx.tier.name()], &["1"], true))] {
+        match r {
+            Ok(rs) => {
+                let rs: Vec<Value> = rs
+                    .into_iter()
+                    .map(|mut r| {
+                        // a distinct cell id, so that these count (and replay) as their own cells
+                        if let Some(id) = r.get("id").and_then(|i| i.as_str()).map(|i| format!("{i}/damaged-system-trust-store")) {
+                            r["id"] = json!(id);
+                        }
+                        if let Some(c) = r.get_mut("cell") {
+                            c["damaged_system_trust_store"] = json!(true);
+                        }
+                        if let Some(sig) = r.get("verdict").and_then(|v| v.get("sig")).and_then(|s| s.as_str()).map(|s| format!("{s}/damaged-system-trust-store")) {
+                            r["verdict"]["sig"] = json!(sig);
+                        }
+                        r
+                    })
+                    .collect();
+                absorb(ctx, &rs)
+            }
+            Err(e) => ctx.inconclusive(&format!("{what} matrix under a damaged system trust store: {e}")),
+        }
+    }
+}
+
+/// `chk --child tls-native <order>`: the native-tls half in a process of its own
+pub fn child_native(args: &[String]) -> i32 {
+    match run_matrix("native-tls", false, args.first().and_then(|s| s.parse().ok()).unwrap_or(1)) {
+        Ok(rs) => {
+            println!("RESULTS {}", Value::Array(rs.iter().map(result_json).collect()));
+            0
+        }
+        Err(e) => {
+            eprintln!("chk tls-native: {e}");
+            2
+        }
+    }
 }
 
 pub fn replay(_ctx: &Ctx, _sub: &str, case: &Value) -> Judge {
     let backend = case.get("backend").and_then(|s| s.as_str()).unwrap_or("native-tls");
+    if case.get("damaged_system_trust_store").is_some() {
+        println!("(a cell from the run under a damaged system trust store: re-run ./check C12 quick to re-judge it in that environment; replaying it in the normal environment)");
+    }
     let r: Value = if backend == "rustls" {
         let rs = rustls_half("replay", &[&case.to_string()]).map_err(|e| Fail::new("infra", e))?;
         rs.into_iter().next().ok_or_else(|| Fail::new("infra", "no result"))?
@@ -235,4 +290,11 @@ pub fn replay(_ctx: &Ctx, _sub: &str, case: &Value) -> Judge {
         Some(v) => Err(Fail::new(v.get("sig").and_then(|s| s.as_str()).unwrap_or("C12/?"), v.get("msg").and_then(|s| s.as_str()).unwrap_or(""))),
         None => Ok(()),
     }
+}
+
+
+/// C14's live first-octets check with this binary's (native-tls) feature set
+pub fn first_octets_native() -> Vec<(String, Result<(), (String, String)>)> {
+    let rt = tokio::runtime::Builder::new_multi_thread().worker_threads(2).enable_all().build().expect("tokio runtime");
+    first_octets_on_the_wire("native-tls", &rt)
 }
